@@ -132,6 +132,9 @@ def rule_r4(chk, facts, P):
         if is_unlink_out(ex):
             n_un += 1
             g, w = f.guarded(b, i, lambda l: edge_has_atom(l, errs))
+            if not g:
+                # inside the pass loop the file of a pass that will be repeated is removed and re-created
+                g, w = f.guarded(b, i, lambda l: edge_has_atom(l, lambda a: a[0] == 'nz' and a[1] == ('g', 'Repass')))
             chk.ob('C02-R4', 'as.c:AssembleFile:unlink(OutName)', g, f.loc(ln),
                    'only when errors were counted' if g else 'the code file is removed on an error-free path: ' + ' '.join(w[-5:]))
     if not n_un:
